@@ -1,11 +1,16 @@
 import GrVerif.Proofs.Lz4
+import GrVerif.Proofs.Lz4Sound
 /-!
 # C14 — compressed tables are transparent; the LZ4 decoder is exact and bounded
 
 Proved here: the *bounded* half for all inputs (no read outside the input, no store outside the announced output size,
-returned count within the output size) and the structural facts of the table wrapper (never a partial table).
-The *exact* half (output = reference decoder's) is decided by correspondence against liblz4; its refinement theorem
-`lz4_sound` is not yet proved (see DESIGN.md, C14 "partial").
+returned count within the output size), the structural facts of the table wrapper (never a partial table), and the *exact*
+half in the direction the property states it – `lz4_sound`: whenever the decoder returns a byte count, the reference decoder
+of the LZ4 block format (`Spec/Lz4Ref.lean`, written from the format description: unbounded lengths, a growing output list,
+byte-wise match copy, no word copies, no buffer) accepts the block and produces exactly those bytes; `table_is_reference_decoding`:
+a compressed table is replaced only by the reference decoding of its payload.  The reference decoder itself is compared with
+liblz4 on every generated block by the correspondence check.  Not a theorem: the converse for blocks that keep the decoder's
+stricter end-of-block rules (`lz4_complete`; exploration over randomised valid encodings).
 -/
 set_option linter.unusedSimpArgs false
 namespace GrVerif.Props.C14
@@ -100,6 +105,83 @@ theorem table_all_or_nothing (tbl : Buf) (fill : Nat) (t : Buf) (h : tableDecomp
               refine ⟨v, hdr, hv, hh, by simpa using s1, ?_, ?_⟩
               · rw [← ht, hsz]; simp
               · rw [← ht, hv2]; simp at hver; rw [hver]
+
+/-- **lz4_sound.**  For every input of bytes shorter than 4 GiB and every output buffer: if `lz4::decompress` returns a count `n`, then the
+block is one the LZ4 block format defines – the reference decoder accepts it – and the first `n` bytes of the output buffer are exactly
+the bytes it decodes to.  (Word-wise overrun copies, the split into literal and match copies, the 32-bit saturating length accumulators,
+the end-of-block and space tests: none of them changes a byte of the result.) -/
+theorem lz4_sound (src out : Buf) (hbyte : ∀ i (h : i < src.size), src[i] < 256) (hsz : src.size < 2 ^ 32)
+    (n : Nat) (out' : Buf) (h : decompress src out = .ok (some n, out')) :
+    ∃ R, Lz4Ref.decompress src = some R ∧ R.length = n ∧ ∀ i, i < n → out'.getD i 0 = R.getD i 0 := by
+  unfold decompress at h
+  by_cases hc : out.size ≤ src.size ∨ src.size < Gen.MINSRCSIZE
+  · rw [if_pos hc] at h; cases h
+  · rw [if_neg hc] at h
+    have : 0 < src.size := by simp only [Gen.MINSRCSIZE] at hc; omega
+    obtain ⟨R, h1, h2, h3⟩ := loop_sound src hbyte hsz src.size 0 0 out.size 0 0 out [] n out' this (by omega) rfl (fun i hi => by cases hi) h
+    exact ⟨R, h1, h2, fun i hi => h3 i (by omega)⟩
+
+/-- the premises of `lz4_sound` are met by a real block (`"graphite graphite graphite graphite!!"`: 9 literals, an overlapping match of 23
+bytes at distance 9 whose length needs a continuation byte, 5 final literals): the decoder returns 37 and the reference decodes it to
+those 37 bytes -/
+def exampleBlock : Buf := #[159, 103, 114, 97, 112, 104, 105, 116, 101, 32, 9, 0, 4, 80, 105, 116, 101, 33, 33]
+def returned (r : Except Fault (Option Nat × Buf)) : Option (Nat × List Nat) :=
+  match r with | .ok (some n, o) => some (n, o.toList) | _ => none
+example : (returned (decompress exampleBlock (Array.replicate 37 0xAA))).map (·.1) = some 37 ∧
+    (returned (decompress exampleBlock (Array.replicate 37 0xAA))).map (·.2) = Lz4Ref.decompress exampleBlock ∧
+    Lz4Ref.decompress exampleBlock = some [103, 114, 97, 112, 104, 105, 116, 101, 32, 103, 114, 97, 112, 104, 105, 116, 101, 32, 103, 114, 97,
+      112, 104, 105, 116, 101, 32, 103, 114, 97, 112, 104, 105, 116, 101, 33, 33] := by
+  decide +kernel
+
+/-- **table_is_reference_decoding.**  A compressed table is replaced only by the reference decoding of its payload: the bytes the rest of
+the loader sees are the bytes the LZ4 block format assigns to the compressed data, whatever the allocator left in the buffer. -/
+theorem table_is_reference_decoding (tbl : Buf) (fill : Nat) (t : Buf) (hbyte : ∀ i (h : i < tbl.size), tbl[i] < 256) (hsz : tbl.size < 2 ^ 32)
+    (h : tableDecompress tbl fill = .ok (.replaced t)) :
+    ∃ R, Lz4Ref.decompress (tbl.extract 8 tbl.size) = some R ∧ t.toList = R := by
+  unfold tableDecompress at h
+  by_cases h20 : tbl.size < Gen.minCompressedTable
+  · simp [h20, pure, Except.pure] at h
+  · have h20' := h20
+    simp only [Gen.minCompressedTable] at h20'
+    obtain ⟨v, hv⟩ := be32_ok tbl 0 (by omega)
+    obtain ⟨hdr, hh⟩ := be32_ok tbl 4 (by omega)
+    simp only [h20, if_false, hv, hh, bind, Except.bind, pure, Except.pure] at h
+    by_cases s0 : hdr >>> Gen.schemeShift = Gen.schemeNONE
+    · simp [s0] at h
+    · by_cases s1 : hdr >>> Gen.schemeShift ≠ Gen.schemeLZ4
+      · simp [s0, s1] at h
+      · by_cases su : hdr &&& Gen.sizeMask < Gen.minUncompressed
+        · simp [s0, s1, su] at h
+        · simp only [s0, s1, su, if_false] at h
+          obtain ⟨r, hr, hsz', _⟩ := lz4_in_bounds (tbl.extract 8 tbl.size)
+            ((((Array.replicate (hdr &&& Gen.sizeMask) fill).set! 0 0).set! 1 0).set! 2 0 |>.set! 3 0)
+          simp only [hr] at h
+          by_cases hret : r.1 ≠ some (hdr &&& Gen.sizeMask)
+          · simp [hret] at h
+          · simp only [hret, if_false] at h
+            obtain ⟨v2, hv2⟩ := be32_ok r.2 0 (by simp [hsz']; simp only [Gen.minUncompressed] at su; omega)
+            simp only [hv2] at h
+            by_cases hver : v2 ≠ v
+            · simp [hver] at h
+            · simp only [hver, if_false] at h
+              have ht : r.2 = t := by simpa using h
+              have hr1 : r.1 = some (hdr &&& Gen.sizeMask) := by simpa using hret
+              have hr' : decompress (tbl.extract 8 tbl.size) ((((Array.replicate (hdr &&& Gen.sizeMask) fill).set! 0 0).set! 1 0).set! 2 0 |>.set! 3 0)
+                  = .ok (some (hdr &&& Gen.sizeMask), t) := by rw [hr, ← hr1, ← ht]
+              have hb' : ∀ i (h : i < (tbl.extract 8 tbl.size).size), (tbl.extract 8 tbl.size)[i] < 256 := by
+                intro i hi
+                simp only [Array.getElem_extract]
+                exact hbyte _ _
+              obtain ⟨R, e1, e2, e3⟩ := lz4_sound _ _ hb' (by simp only [Array.size_extract]; omega) _ _ hr'
+              refine ⟨R, e1, ?_⟩
+              have hts : t.size = hdr &&& Gen.sizeMask := by rw [← ht, hsz']; simp
+              apply List.ext_getElem
+              · simp [hts, e2]
+              · intro i h1 h2
+                have := e3 i (by rw [e2] at h2; exact h2)
+                simp only [Array.getD_eq_getD_getElem?, List.getD_eq_getElem?_getD] at this
+                simp only [Array.length_toList] at h1
+                simpa [h1, h2] using this
 
 /-- the 5/27-bit split of the compression word (as extracted from `Face.cpp`) -/
 theorem header_split (hdr : Nat) :
